@@ -7,15 +7,18 @@
    Modelled, not verified (trusted, exercised by the correspondence stream): the fragments of Go's time.Parse /
    Time.Format (Types/GoTime.v) and of strconv.ParseFloat's syntax and range verdict (Types/FixFloat.v).
    Float VALUES are not modelled.  Decimal / udecimal (shopspring, quagmt libraries): executable models of the
-   library functions in Types/FixDecimal.v (modelled, not verified).  For FIXDecimal the write->read round trip is
-   proved of that model (half away from zero, Types/FixDecimalProofs.v); FIXDecimal read->write of canonical texts
-   and FIXUDecimal (truncation) are validated by the correspondence stream only, against dec_round_half_away /
-   udec_trunc_spec of TypesSpec.v. *)
+   library functions in Types/FixDecimal.v (modelled, not verified).  Proved of those models: FIXDecimal write->read
+   (half away from zero, Types/FixDecimalProofs.v) and read->write of canonical texts (Types/FixDecimalCanon.v);
+   FIXUDecimal acceptance <=> grammar, write->read (truncation towards zero) and read->write of canonical texts
+   (Types/FixUDecimalProofs.v), within the bounds the library has and the model carries: texts of at most 200 bytes,
+   precision 0..19.  Grammars / canonical texts / values: Types/DecimalSpec.v; rounding rules: Types/TypesSpec.v.
+   That the models agree with the libraries is validated by the correspondence stream only. *)
 From Coq Require Import ZArith List Bool.
 From QF Require Import Base.Res Base.Bytes Codec.FixInt Codec.FixIntProofs
   Types.FixBool Types.FixString Types.FixBoolProofs
   Types.GoTime Types.GoTimeProofs Types.FixTimestamp Types.TypesSpec Types.FixTimestampProofs
-  Types.FixFloat Types.FixFloatProofs Types.FixDecimal Types.FixDecimalProofs.
+  Types.FixFloat Types.FixFloatProofs Types.FixDecimal Types.FixDecimalProofs
+  Codec.FixIntSpec Types.DecimalSpec Types.FixDecimalCanon Types.FixUDecimalProofs.
 Import ListNotations.
 Open Scope Z_scope.
 
@@ -176,3 +179,125 @@ Example c14_decimal_write_read_ex :   (* 2.5 -> "3", -2.5 -> "-3", 0.125 at 2 ->
   /\ decimal_write (125, -3) 2 = [48; 46; 49; 51] /\ decimal_write (-4, -3) 2 = [48; 46; 48; 48]
   /\ decimal_write (1234, 0) (-2) = [49; 50; 48; 48] /\ dcm_in_int32 (- 2) = true.
 Proof. vm_compute. repeat split. Qed.
+
+(* ------------------------------------------------------------------ decimal, read -> write (shopspring model)
+   dec_canonicalb k s (Types/DecimalSpec.v): optional '-', integer digits without superfluous leading zeros, and
+   exactly k fraction digits (k = 0: no point); a negative text is not zero ("-0", "-0.00" are out).
+   dec_text_coef s: the integer made of all the digits, with the sign. *)
+
+(* read then write: a canonical text of scale k is read as (coefficient, -k) and written back at scale k as the
+   same text (k within int32: NewFromString refuses an exponent outside int32) *)
+Theorem c14_decimal_read_write : forall k s,
+  dec_canonicalb k s = true -> dcm_in_int32 (- Z.of_nat k) = true ->
+  decimal_read s = Ok (dec_text_coef s, - Z.of_nat k)
+  /\ decimal_write (dec_text_coef s, - Z.of_nat k) (Z.of_nat k) = s.
+Proof. exact decimal_read_write_canonical. Qed.
+Theorem c14_decimal_read_then_write : forall k s d,
+  dec_canonicalb k s = true -> dcm_in_int32 (- Z.of_nat k) = true ->
+  decimal_read s = Ok d -> decimal_write d (Z.of_nat k) = s.
+Proof. exact decimal_read_then_write. Qed.
+Example c14_decimal_read_write_ex :   (* "-12.50" at 2, "0.007" at 3, "0" at 0 in; "012.5" "-0.0" "1." "+1.5" ".5" "1.50" at 1 out *)
+  dec_canonicalb 2 [45; 49; 50; 46; 53; 48] = true /\ dcm_in_int32 (- Z.of_nat 2) = true
+  /\ dec_text_coef [45; 49; 50; 46; 53; 48] = -1250
+  /\ decimal_read [45; 49; 50; 46; 53; 48] = Ok (-1250, -2)
+  /\ dec_canonicalb 3 [48; 46; 48; 48; 55] = true /\ dec_canonicalb 0 [48] = true
+  /\ dec_canonicalb 1 [48; 49; 50; 46; 53] = false /\ dec_canonicalb 1 [45; 48; 46; 48] = false
+  /\ dec_canonicalb 0 [49; 46] = false /\ dec_canonicalb 1 [43; 49; 46; 53] = false
+  /\ dec_canonicalb 1 [46; 53] = false /\ dec_canonicalb 1 [49; 46; 53; 48] = false
+  /\ dec_canonicalb 0 [45; 48] = false.
+Proof. vm_compute. repeat split. Qed.
+
+(* Write at a scale >= 0 produces canonical texts of that scale only *)
+Theorem c14_decimal_write_canonical : forall v e scale, 0 <= scale ->
+  dec_canonicalb (Z.to_nat scale) (decimal_write (v, e) scale) = true.
+Proof. exact decimal_write_canonical. Qed.
+
+(* ------------------------------------------------------------------ udecimal (quagmt model)
+   Bounds of the library, carried by the model: a text has at most 200 bytes, a value has precision 0..19
+   (udec_wfb: coefficient >= 0, 0 <= precision <= 19); the scale of FIXUDecimal is a uint8 (>= 0). *)
+
+(* accepted <=> grammar, with the denoted value, for every byte string; everything else is an error *)
+Theorem c14_udecimal_read_iff : forall s d, udecimal_read s = Ok d <-> udec_read_spec s = Some d.
+Proof. exact udecimal_read_iff. Qed.
+Theorem c14_udecimal_read_rejects : forall s, udec_grammarb s = false -> udecimal_read s = Err E_DEC.
+Proof. exact udecimal_read_rejects. Qed.
+Theorem c14_udecimal_read_total : forall s, total_res (udecimal_read s).
+Proof. exact udecimal_read_total. Qed.
+(* the grammar as a decomposition: at most 200 bytes; sign "", "-", "+" (or "-+" in a text longer than 41 bytes:
+   the library's big.Int path, kept by the model); digits; optionally '.' and 1..19 digits *)
+Theorem c14_udecimal_grammarb_iff : forall s, udec_grammarb s = true <-> udec_grammar s.
+Proof. exact udec_grammarb_iff. Qed.
+Theorem c14_udecimal_accepts_iff_grammar : forall s, (exists d, udecimal_read s = Ok d) <-> udec_grammar s.
+Proof. exact udecimal_read_ok_iff_grammar. Qed.
+Example c14_udecimal_grammar_ex :   (* "+1.5" "-0.0" "007" in; "" "-" "-.5" "1." "1.2.3" "1e5" " 1" and 20 fraction digits out *)
+  udec_read_spec [43; 49; 46; 53] = Some (false, 15, 1) /\ udec_read_spec [45; 48; 46; 48] = Some (false, 0, 0)
+  /\ udec_read_spec [48; 48; 55] = Some (false, 7, 0)
+  /\ udec_grammarb [] = false /\ udec_grammarb [45] = false /\ udec_grammarb [45; 46; 53] = false
+  /\ udec_grammarb [49; 46] = false /\ udec_grammarb [49; 46; 50; 46; 51] = false
+  /\ udec_grammarb [49; 101; 53] = false /\ udec_grammarb [32; 49] = false
+  /\ udec_grammarb ([49; 46] ++ repeat 49 19) = true /\ udec_grammarb ([49; 46] ++ repeat 49 20) = false
+  /\ udec_grammarb (repeat 49 200) = true /\ udec_grammarb (repeat 49 201) = false
+  /\ udec_grammarb ([45; 43] ++ repeat 49 39) = false /\ udec_grammarb ([45; 43] ++ repeat 49 40) = true.
+Proof. vm_compute. repeat split. Qed.
+Example c14_udecimal_grammar_prop_ex : udec_grammar [43; 49; 46; 53].
+Proof. exact (proj1 (udec_grammarb_iff [43; 49; 46; 53]) eq_refl). Qed.
+
+(* write then read: the value truncated towards zero to the written scale (udec_trunc_spec of TypesSpec.v: the
+   coefficient at precision min p k), held at precision min k 19 (StringFixed pads to the scale, at most 19) *)
+Theorem c14_udecimal_write_read : forall neg coef p k,
+  udec_wfb (neg, coef, p) = true -> (0 <=? k) = true ->
+  Nat.leb (length (udecimal_write (neg, coef, p) k)) UDEC_MAX_LEN = true ->
+  udecimal_read (udecimal_write (neg, coef, p) k)
+  = Ok (udec_norm neg (udec_trunc_spec coef p k * 10 ^ (Z.min k 19 - Z.min p k)) (Z.min k 19)).
+Proof. exact udecimal_write_read. Qed.
+(* numerically: what is read back is well formed and equals sign * trunc(coef / 10^(p-k)) / 10^(min p k),
+   which is the value of Decimal.Trunc(k) *)
+Theorem c14_udecimal_write_read_value : forall neg coef p k,
+  udec_wfb (neg, coef, p) = true -> (0 <=? k) = true ->
+  Nat.leb (length (udecimal_write (neg, coef, p) k)) UDEC_MAX_LEN = true ->
+  exists d', udecimal_read (udecimal_write (neg, coef, p) k) = Ok d'
+    /\ udec_wfb d' = true
+    /\ udec_value_eqb d' (neg, udec_trunc_spec coef p k, Z.min p k) = true
+    /\ udec_value_eqb d' (udc_trunc (neg, coef, p) k) = true.
+Proof. exact udecimal_write_read_value. Qed.
+(* the 200-byte hypothesis holds for every coefficient below 10^179 (a u128 coefficient is below 10^39) *)
+Theorem c14_udecimal_write_length : forall neg coef p k,
+  udec_wfb (neg, coef, p) = true -> (0 <=? k) = true -> (coef <? 10 ^ 179) = true ->
+  Nat.leb (length (udecimal_write (neg, coef, p) k)) UDEC_MAX_LEN = true.
+Proof. exact udecimal_write_length. Qed.
+Theorem c14_udecimal_write_read_small : forall neg coef p k,
+  udec_wfb (neg, coef, p) = true -> (0 <=? k) = true -> (coef <? 10 ^ 179) = true ->
+  udecimal_read (udecimal_write (neg, coef, p) k)
+  = Ok (udec_norm neg (udec_trunc_spec coef p k * 10 ^ (Z.min k 19 - Z.min p k)) (Z.min k 19)).
+Proof. exact udecimal_write_read_small. Qed.
+Example c14_udecimal_write_read_ex :   (* -123.456 at 2 -> "-123.45" -> -123.45; 1.5 at 3 -> "1.500"; -0.004 at 2 -> "0.00" -> 0; 1.5 at 25 -> 19 digits *)
+  udec_wfb (true, 123456, 3) = true /\ (0 <=? 2) = true /\ (123456 <? 10 ^ 179) = true
+  /\ Nat.leb (length (udecimal_write (true, 123456, 3) 2)) UDEC_MAX_LEN = true
+  /\ udecimal_write (true, 123456, 3) 2 = [45; 49; 50; 51; 46; 52; 53]
+  /\ udecimal_read (udecimal_write (true, 123456, 3) 2) = Ok (true, 12345, 2)
+  /\ udecimal_write (false, 15, 1) 3 = [49; 46; 53; 48; 48]
+  /\ udecimal_read (udecimal_write (false, 15, 1) 3) = Ok (false, 1500, 3)
+  /\ udecimal_write (true, 4, 3) 2 = [48; 46; 48; 48]
+  /\ udecimal_read (udecimal_write (true, 4, 3) 2) = Ok (false, 0, 0)
+  /\ udecimal_read (udecimal_write (false, 15, 1) 25) = Ok (false, 15 * 10 ^ 18, 19).
+Proof. vm_compute. repeat split. Qed.
+
+(* read then write: a canonical text of scale k <= 19 and at most 200 bytes (udec_canonicalb) is read as the number
+   it denotes and written back at scale k as the same text *)
+Theorem c14_udecimal_read_write : forall k s, udec_canonicalb k s = true ->
+  udecimal_read s = Ok (udec_text_value s) /\ udecimal_write (udec_text_value s) (Z.of_nat k) = s.
+Proof. exact udecimal_read_write_canonical. Qed.
+Theorem c14_udecimal_read_then_write : forall k s d, udec_canonicalb k s = true ->
+  udecimal_read s = Ok d -> udecimal_write d (Z.of_nat k) = s.
+Proof. exact udecimal_read_then_write. Qed.
+Example c14_udecimal_read_write_ex :
+  udec_canonicalb 2 [45; 49; 50; 51; 46; 52; 48] = true /\ udec_text_value [45; 49; 50; 51; 46; 52; 48] = (true, 12340, 2)
+  /\ udec_canonicalb 2 [48; 46; 48; 48] = true /\ udec_canonicalb 0 [55] = true
+  /\ udec_canonicalb 2 [43; 49; 46; 52; 48] = false /\ udec_canonicalb 20 ([49; 46] ++ repeat 49 20) = false.
+Proof. vm_compute. repeat split. Qed.
+
+(* Write produces canonical texts only, of scale min k 19 *)
+Theorem c14_udecimal_write_canonical : forall neg coef p k,
+  udec_wfb (neg, coef, p) = true -> (0 <=? k) = true ->
+  dec_canonicalb (Z.to_nat (Z.min k 19)) (udecimal_write (neg, coef, p) k) = true.
+Proof. exact udecimal_write_canonical. Qed.
